@@ -84,6 +84,16 @@ def values_part(ck, tier):
         if not ok:
             ck.violation("results independent of the order of the sample and of the evaluation points; scalar and array inputs agree",
                          {**ident, "x": xs[j]}, site="GaussianKDE.order")
+        # integer-typed evaluation points (arrays and Python ints) give the same values as the equal floats
+        ints = np.arange(int(xs.min()), int(xs.max()) + 1)
+        pf, cf = np.asarray(kde(ints.astype(float))), np.asarray(kde.cdf(ints.astype(float)))
+        pi_, ci_ = np.asarray(kde(ints), dtype=float), np.asarray(kde.cdf(ints), dtype=float)
+        i0 = int(ints[len(ints) // 2])
+        if not (np.array_equal(pi_, pf) and np.array_equal(ci_, cf) and float(kde(i0)) == float(kde(float(i0)))
+                and float(kde.cdf(i0)) == float(kde.cdf(float(i0)))):
+            ck.violation("scalar / array and integer / float evaluation points agree", {**ident, "x": i0, "cdf_int": float(kde.cdf(i0)),
+                                                                                          "cdf_float": float(kde.cdf(float(i0)))},
+                         site="GaussianKDE.dtype")
         if len(ck.samples) < 2 and len(sample) >= 5:
             ck.sample({**ident, "x": xs[len(xs) // 2], "exact_pdf": want_p[len(xs) // 2], "exact_cdf": want_c[len(xs) // 2]})
     ck.traces += len(cases)
@@ -104,7 +114,8 @@ def covariance_part(ck, tier):
         else:
             s = rng.standard_t(3, size=n)
         s = np.round(s * 64) / 64               # ties and exact binary scaling
-        for a_log2, b in ((-10, 0.0), (7, 0.0), (0, 37.0), (12, 5.0 * 2 ** 12), (-4, -1000.0)):
+        # the last two shifts put the data ~1e7 spreads from zero (still exactly representable: the sample is a multiple of 1/64)
+        for a_log2, b in ((-10, 0.0), (7, 0.0), (0, 37.0), (12, 5.0 * 2 ** 12), (-4, -1000.0), (0, 2.0 ** 24), (0, -(2.0 ** 26))):
             a = 2.0 ** a_log2
             t = a * s + b
             for mode in ("user", "rule", "cv"):
@@ -115,7 +126,7 @@ def covariance_part(ck, tier):
                     elif mode == "rule":
                         k1, k2 = make(s), make(t)
                     else:
-                        if n > 90 or a_log2 in (7, 0):
+                        if n > 90 or a_log2 == 7 or (a_log2 == 0 and abs(b) < 1e6):
                             continue
                         k1, k2 = make(s, cross_validation=True), make(t, cross_validation=True)
                 except Exception as ex:
